@@ -75,11 +75,13 @@ func hSegment(batches []hBatch, from, to int) (file []byte, ends []int) {
 func VerifHarness_C21_FailoverReplay() {
 	n := 2 + sym.Choose("batches", 2)
 	batches := make([]hBatch, n)
-	var prev base.SeqNum
+	next := base.SeqNum(1)
 	for i := range batches {
-		batches[i].seq = prev + 1 + base.SeqNum(sym.U8("seq-gap"))
+		// a batch starts at or after the end of the previous one; a count-zero (LogData) batch
+		// consumes no sequence numbers, so the batch after it may carry the same number
+		batches[i].seq = next + base.SeqNum(sym.U8("seq-gap"))
 		batches[i].count = uint32(sym.U8("count")) & 3 // zero = a batch holding only LogData
-		prev = batches[i].seq + base.SeqNum(batches[i].count)
+		next = batches[i].seq + base.SeqNum(batches[i].count)
 	}
 	k := 1 + sym.Choose("in-first-segment", n) // the first segment holds batches [0, k)
 	seg0, ends0 := hSegment(batches, 0, k)
